@@ -1,4 +1,5 @@
-"""./check selftest [name...]: run the quick check of the property each seeded change (seeded/<name>) is meant to break,
+"""./check selftest [name...]: run the quick check of the property each seeded change (seeded/<name>) is meant to break
+(or of the neighbouring property recorded as 'caught_by' in its meta.json),
 against a scratch copy of the sources with that change applied (VERIF_SRC); every seeded change must be reported as a
 replayed VIOLATION.  Not part of the registered commands (it takes the sum of the quick tiers)."""
 import json
@@ -16,7 +17,8 @@ def main(names):
     missed = []
     for n in names:
         meta = json.load(open(os.path.join(seeded, n, "meta.json")))
-        pid = meta["property"]
+        # the property whose check reports it (recorded after the run here; normally the property the change was made for)
+        pid = meta.get("caught_by") or meta["property"]
         out = tools_seeded.check(n, [pid])
         if out[pid]["exit"] != 1:
             missed.append(n)
